@@ -4,7 +4,7 @@ CONSTANTS K = 2
   Dev <- Actual
   NexusClears = TRUE
   TimeOut = 2
-  MaxOps = 3
+  MaxOps = 2
   MaxDowns = 1
   MaxTicks = 1
   MaxExpires = 1
@@ -14,13 +14,11 @@ CONSTANTS K = 2
   D = 0
 INIT Init
 NEXT Next
-VIEW view
+VIEW viewE
 CONSTRAINT Bounds
 CHECK_DEADLOCK FALSE
 INVARIANT TypeOK
 INVARIANT BarriersInFlight
-INVARIANT DrainedAgreeKeys
-INVARIANT WritesEndWithBarrier
-PROPERTY SyncAtBarrierKeys
 PROPERTY InstalledOnlyAfterBarrier
 PROPERTY RemovedOnlyWhenConfirmed
+PROPERTY WritesEndWithBarrier
